@@ -5,5 +5,9 @@ package gorillamux
 // C15 (sufficient condition): route lookup writes neither the document nor the router.
 //@ func (*Router).FindRoute
 //@   modifies *
+//@   preserves @C14 openapi3filter.Validator.strict, openapi3filter.Validator.errFunc, openapi3filter.Validator.logFunc, openapi3filter.Validator.router, http.Request.URL
+//@   preserves @C14 handlerCalls, errCalls, cliHdr, cliCode, cliBody
+//@   defines (result.2 == nil) <==> routeFound(req)
+//@   defines result.2 == nil ==> routeWF(result.0)
 //@   preserves @C15 all(openapi3), all(routers), all(gorillamux)
 //@   preserves @C15 globals(openapi3), globals(routers), globals(gorillamux)
